@@ -94,10 +94,7 @@ def opM (ac : ApiCfg) (s : Sys) : Op → M Int Out
   | .newv x n v a => ctorFill ac.cfg x a Gen.ctorCountValueChecked (List.replicate n (.ext v)) >>= fun _ => pure .none
   | .newr x .fw a vs => ctorFill ac.cfg x a Gen.ctorForwardRangeChecked (extSrcs vs) >>= fun _ => pure .none
   | .newg x a vs => ctorFill ac.cfg x a Gen.ctorGeneratorChecked (extSrcs vs) >>= fun _ => pure .none
-  | .newr x .inp a vs =>
-      ctorDefault x a >>= fun _ =>
-      tryCatch (appendRangeInput ac.cfg x false s.nextStream 0 vs >>= fun _ => pure Out.none)
-        (fun e => wipe ac.cfg x >>= fun _ => throwE e)     -- base-class destructor of the delegating constructor
+  | .newr x .inp a vs => ctorInput ac.cfg x a s.nextStream vs >>= fun _ => pure .none   -- (Ops.lean: default ctor, append loop, base-class destructor on a throw)
   | .newc x y a => ctorCopy ac.cfg x y (match a with | some a => a | none => (s.w.hdr y).alloc + ac.socccShift) >>= fun _ => pure .none
   | .newm x y none => ctorMove ac.cfg x y >>= fun _ => pure .none
   | .newm x y (some a) => ctorMoveAlloc ac.cfg x y a >>= fun _ => pure .none
@@ -130,7 +127,7 @@ def opM (ac : ApiCfg) (s : Sys) : Op → M Int Out
   | .appm x y => appendOtherMove ac.cfg x y >>= fun _ => pure .none
   | .app x .fw vs => appendRangeFwd ac.cfg x true (extSrcs vs) >>= fun _ => pure .none
   | .app x .inp vs => appendRangeInput ac.cfg x true s.nextStream 0 vs >>= fun _ => pure .none
-  | .at x i => getV x >>= fun v => if v.size ≤ i then throwE .range else readSlot v.data i >>= fun r => pure (.val r)
+  | .at x i => getV x >>= fun v => if Gen.guard_at0_0 { size := v.size, pos := i } then throwE .range else readSlot v.data i >>= fun r => pure (.val r)   -- the GENERATED test of `at ()`
   | .get x i => getV x >>= fun v => readSlot v.data i >>= fun r => pure (.val r)
 
 def usesStream : Op → Bool
